@@ -12,9 +12,24 @@ FUNCTIONS = ['uxarray.core.dataarray.UxDataArray.integrate@dims=n_face',
     'uxarray.core.dataarray.UxDataArray.integrate@dims=time',
     'uxarray.grid.grid.Grid.calculate_total_face_area',
     'uxarray.grid.area.get_all_face_area_from_coords@dim=2',
-    'uxarray.grid.area.get_all_face_area_from_coords@dim=3']
+    'uxarray.grid.area.get_all_face_area_from_coords@dim=3',
+    'uxarray.grid.area.get_gauss_quadratureDG@n=1',
+    'uxarray.grid.area.get_gauss_quadratureDG@n=2',
+    'uxarray.grid.area.get_gauss_quadratureDG@n=3',
+    'uxarray.grid.area.get_gauss_quadratureDG@n=4',
+    'uxarray.grid.area.get_gauss_quadratureDG@n=5',
+    'uxarray.grid.area.get_gauss_quadratureDG@n=6',
+    'uxarray.grid.area.get_gauss_quadratureDG@n=7',
+    'uxarray.grid.area.get_gauss_quadratureDG@n=8',
+    'uxarray.grid.area.get_gauss_quadratureDG@n=9',
+    'uxarray.grid.area.get_gauss_quadratureDG@n=10',
+    'uxarray.grid.area.get_tri_quadratureDG@order=1',
+    'uxarray.grid.area.get_tri_quadratureDG@order=4',
+    'uxarray.grid.area.get_tri_quadratureDG@order=8',
+    'uxarray.grid.area.get_tri_quadratureDG@order=10',
+    'uxarray.grid.area.get_tri_quadratureDG@order=12']
 STANDINS = ["integration"]
 ASSUMPTIONS = []
 EXPLANATION = ""
-LEVEL_TEXT = 'the area kernel behind integrate (get_all_face_area_from_coords) proved to integrate every face over exactly its own corners, whatever the sizes of the faces before it; UxDataArray.integrate proved for nine concrete dims layouts with symbolic, independent element counts (n_node == n_face allowed): face-centred data -> weighted sum with the areas of the requested rule/order, dims/name/grid; everything else raises ValueError; values/linearity/Dataset variant bounded'
+LEVEL_TEXT = 'the quadrature tables behind every rule/order integrate can be asked for (Gauss n=1..10, triangular orders 1,4,8,10,12) proved exact to their degree (weights sum, moments); the area kernel behind integrate (get_all_face_area_from_coords) proved to integrate every face over exactly its own corners, whatever the sizes of the faces before it; UxDataArray.integrate proved for nine concrete dims layouts with symbolic, independent element counts (n_node == n_face allowed): face-centred data -> weighted sum with the areas of the requested rule/order, dims/name/grid; everything else raises ValueError; values/linearity/Dataset variant bounded'
 LEVEL_NOTE = "einsum('i,...i') and compute_face_areas as uninterpreted functions; dims tuples enumerated (9 layouts)"
